@@ -466,7 +466,14 @@ func init() {
 					mixes = append(mixes, mix)
 				}
 			}
-			mixes = append(mixes, []bool{true, false, true, false}, []bool{true, true, true, true}, []bool{false, false, false, false})
+			if tier == "thorough" {
+				for m := 0; m < 16; m++ {
+					mixes = append(mixes, []bool{m&1 != 0, m&2 != 0, m&4 != 0, m&8 != 0})
+				}
+				mixes = append(mixes, []bool{true, false, true, false, true}, []bool{false, false, true, true, true, false})
+			} else {
+				mixes = append(mixes, []bool{true, false, true, false}, []bool{true, true, true, true}, []bool{false, false, false, false})
+			}
 			for _, mix := range mixes {
 				if tier == "quick" && len(mix) > 2 && (mix[0] != mix[1]) && len(mix) == 3 {
 					continue
